@@ -13,7 +13,8 @@ THEOREMS = ["Econf.C03_lookup", "Econf.C03_nothing_else", "Econf.C03_no_duplicat
             "Econf.C03_object", "Econf.C03_merge_spec", "Econf.Struct.api_frames",
             "LeafKf.C_first_entry", "LeafKf.C_has_group", "LeafKf.first_definition_exec", "LeafKf.first_entry_shape", "LeafKf.has_group_shape",
             "LeafKf.C_setGroupList", "LeafKf.setGroupList_new", "LeafKf.setGroupList_found", "LeafKf.setGroupList_shape",
-            "LeafKf.cpy_file_entry_exec", "LeafKf.cpy_file_entry_shape", "LeafKf.setGroupList_spec"]
+            "LeafKf.cpy_file_entry_exec", "LeafKf.cpy_file_entry_shape", "LeafKf.setGroupList_spec",
+            "LeafKf.C_fe_append", "LeafKf.fe_append_exec", "LeafKf.EntMem.moved"]
 RULE = ("pairs of entry lists over {group-less,A,B}x{x,y}: exhaustive up to the tier's length bound, built by parsing and by the setters "
         "on all constructor kinds, plus random larger pairs, pairs with valueless definitions, and pairs in which an input is the result of "
         "econf_readDirs or a member of a history; non-trivial = merge succeeded and both sides non-empty or one side an "
